@@ -448,6 +448,7 @@ pub fn run(ctx: &mut Ctx) -> (&'static str, String, bool) {
                     }
                 }
             }
+            let mut stream = stream;
             let mut rplan = vec![];
             for _ in 0..r.usize_below(400) {
                 rplan.push(if r.chance(1, 3) { RAct::Pending } else { RAct::Bytes(1 + r.usize_below(40)) });
@@ -458,7 +459,24 @@ pub fn run(ctx: &mut Ctx) -> (&'static str, String, bool) {
             }
             let ndrops = r.usize_below(30);
             let horizon = 50 + stream.len() / 4;
-            let drops: BTreeSet<usize> = (0..ndrops).map(|_| 1 + r.usize_below(horizon)).collect();
+            let mut drops: BTreeSet<usize> = (0..ndrops).map(|_| 1 + r.usize_below(horizon)).collect();
+            // every fifth long session: each frame arrives in two pieces with a Pending in between, and the read is
+            // dropped at every one of those Pendings - for the whole session, far beyond the 6120-byte buffer
+            if i % 5 == 4 && !miri {
+                while stream.len() < 3 * 6120 {
+                    let again = stream.clone();
+                    stream.extend(again);
+                }
+                rplan.clear();
+                let (frames, _) = ref_frames(&stream, compressed);
+                for f in &frames {
+                    let k = 1 + r.usize_below(f.len() - 1);
+                    rplan.push(RAct::Bytes(k));
+                    rplan.push(RAct::Pending);
+                    rplan.push(RAct::Bytes(f.len() - k));
+                }
+                drops = (1..=4 * frames.len() + 64).collect();
+            }
             let s = Session { compressed, stream, read_plan: rplan, default_read: 1 + r.usize_below(900), write_plan: wplan, default_write: 1 + r.usize_below(4), drops, write_after_drop: r.chance(1, 3), flush_plan: if i % 3 == 2 { Some((0..r.usize_below(60)).map(|_| r.chance(1, 2)).collect()) } else { None }, verify_version: i % 4 == 1, handshake_after_drop: i % 5 == 3, user_writes_keepalive: i % 7 == 2, label: format!("long-{i}") };
             let o = run_session(&s);
             p.evaluations += 1;
